@@ -1,9 +1,11 @@
 #!/bin/bash
 # tools/run_all.sh [tier] [seed]: every check once; prints id, exit status, wall time
 tier=${1:-quick}; seed=${2:-1}
+out=$(mktemp -d /tmp/run_all_${tier}_${seed}_XXXX)
 for i in 01 02 03 04 05 06 07 08 09 10 11 12 13 14 15 16 17 18 19 20; do
   t0=$(date +%s)
-  VERIF_SEED=$seed "$(dirname "$0")/../check" C$i --tier $tier > /tmp/all_C$i.out 2>&1
+  "$(dirname "$0")/../check" C$i --tier $tier --seed $seed > $out/C$i.out 2>&1
   st=$?
-  echo "C$i exit=$st $(( $(date +%s) - t0 ))s $(grep -c VIOLATION /tmp/all_C$i.out) viol $(grep -m1 'INFRA' /tmp/all_C$i.out | cut -c1-150)"
+  echo "C$i exit=$st $(( $(date +%s) - t0 ))s $(grep -c '^VIOLATION' $out/C$i.out) viol $(grep -c '^KNOWN-FINDING' $out/C$i.out) known $(grep -m1 'INFRA' $out/C$i.out | cut -c1-150)"
 done
+echo "outputs in $out"
